@@ -99,9 +99,13 @@ def execute(cfg, prefix):
         # split the messages over the producer threads round-robin
         shares = [msgs[i::producers] for i in range(producers)]
 
+        log = []          # ("call"|"ret", message index) in kernel order: only one simulated thread runs at a time
+
         def produce(lst):
             for m in lst:
+                log.append(("call", msgs.index(m)))
                 nw.node.send_message(conn, m)
+                log.append(("ret", msgs.index(m)))
         nw.world.points_on = True
         ch.window = True
         for i, lst in enumerate(shares):
@@ -111,19 +115,40 @@ def execute(cfg, prefix):
         nw.world.points_on = False
         nw.world.advance(6)
         nw.world.advance(6)
-        queues = [v for v in vars(conn).values() if isinstance(v, sk.SimQueue) and any(m in msgs for m in v.accepted)]
-        if len(queues) != 1:
-            raise sk.HarnessError("cannot identify the connection's message queue")
-        order = [m for m in queues[0].accepted if m in msgs]
-        expected = b""
-        for m in order:
+        enc = {}
+        for i, m in enumerate(msgs):
             try:
-                expected += m.as_bytes()
+                enc[i] = m.as_bytes()
             except Exception:
                 pass
+        # queueing order.  Exact when every message went through one queue of the connection (the shim records acceptance order);
+        # otherwise the order of the queueing calls: a call that returned before another began comes first, overlapping calls
+        # may go either way.
+        queues = [v for v in vars(conn).values() if isinstance(v, sk.SimQueue) and all(any(m is a for a in v.accepted) for m in msgs)]
         got = bytes(s.fs.sent[base:])
+        if len(queues) == 1:
+            order = tuple(msgs.index(m) for m in queues[0].accepted if m in msgs)
+            cands = [order]
+        else:
+            before = set()
+            done = set()
+            for what, i in log:
+                if what == "call":
+                    before |= {(d, i) for d in done}
+                else:
+                    done.add(i)
+            cands = [p for p in itertools.permutations(range(len(msgs))) if all(p.index(a) < p.index(b) for a, b in before)]
+            order = cands[0]
+        expected = None
+        for p in cands:
+            e = b"".join(enc.get(i, b"") for i in p)
+            if expected is None:
+                expected = e
+            if e == got:
+                expected, order = e, p
+                break
         left = len(conn.write_buffer)
-        obs = (got == expected, tuple(msgs.index(m) for m in order), len(got), len(expected), left, s.fs.closed, tuple(nw.thread_failures()),
+        obs = (got == expected, tuple(order), len(got), len(expected), left, s.fs.closed, tuple(nw.thread_failures()),
                got.hex() if got != expected else "", expected.hex() if got != expected else "")
         return obs, ch
     finally:
@@ -162,6 +187,7 @@ def configs(tier):
         out.append(((("ok", "ok"), 1, p), 1 if tier != "thorough" else 2))
     # an unencodable message between two good ones; two and three producers
     out.append(((("ok", "bad", "ok"), 1, ()), 2))
+    out.append(((("ok", "ok", "ok"), 1, ()), 2))
     out.append(((("ok", "bad", "ok"), 1, ("1",)), 1 if tier != "thorough" else 2))
     out.append(((("bad", "ok"), 2, ("half",)), 1 if tier != "thorough" else 2))
     out.append(((("ok", "ok"), 2, ()), 2))
@@ -196,7 +222,7 @@ def run(tier):
                     "explanation": "every schedule with at most the stated preemptions of producers, the connection's writer thread and the node's I/O thread at "
                                    "source-line granularity, for every send() plan of up to 2 (quick) / 3 (thorough) non-default answers out of {1 byte, 3 bytes, "
                                    "half, EAGAIN, EINTR, ENOBUFS}; oracle: bytes accepted by the socket == concatenation of the encodings in queue-acceptance order"})
-    rep.assumptions += ["a source line without a traced call is atomic", "queue acceptance order is recorded by the queue shim"]
+    rep.assumptions += ["a source line without a traced call is atomic", "queueing order = acceptance order of the connection's queue as recorded by the queue shim when every message passes through it, else the order of non-overlapping queueing calls"]
     return rep.finish()
 
 
